@@ -28,62 +28,112 @@ def run(facts, rep, tier):
         return
     em = ems["struct"]
     h = em.h
-    # the one loop
-    loops = [n for n, _ in nodes(h["body"], "mcall") if n["name"] == "for_each" and src(n["recv"]) == "properties.iter()"]
-    forloops = [n for n, _ in nodes(h["body"], "match") if n.get("src") == "for" and "properties" in src(n["scrut"])]
-    if not rep.floor("C18.T2", "loop over the properties", len(loops) + len(forloops), 1):
+    cn = em.canon()
+    from lib import scope_binding, Canon
+    # the one loop over the entry's properties
+    loop_body = None
+    for n, _ in nodes(h["body"], "mcall"):
+        if n["name"] == "for_each" and re.fullmatch(r"\S*~TypeEntryStruct\.properties\.iter\(\)", cn.r(n["recv"])) and n.get("args") and n["args"][0].get("k") == "closure":
+            loop_body = n["args"][0]["body"]
+    if loop_body is None:
+        for n, _ in nodes(h["body"], "match"):
+            if n.get("src") == "for" and re.search(r"~TypeEntryStruct\.properties", cn.r(n["scrut"])):
+                loop_body = n
+    if not rep.floor("C18.T2", "loop over the properties", 1 if loop_body is not None else 0, 1):
         return
-    loop_body = loops[0]["args"][0]["body"] if loops else forloops[0]
-    vec_lets = [n["pat"]["name"] for n, _ in nodes(h["body"], "let") if n["pat"].get("k") == "bind" and src(n.get("init")) in ("Vec::new()", "Vec<T>::new()", "vec!()") and n["pat"]["name"].startswith("prop_")]
+
+    def pushes_into(let_stmt, scope):
+        out = []
+        for n, anc in walk(scope):
+            if n.get("k") == "mcall" and n["name"] in ("push", "insert", "remove", "pop", "retain", "sort", "dedup", "truncate", "swap", "reverse", "clear", "extend") and isinstance(n["recv"], dict):
+                rv = strip_refs(n["recv"])
+                if rv.get("k") == "path" and rv.get("res") == "local":
+                    bb = scope_binding(h, cn.ancestors(rv), rv["path"], rv)
+                    if bb and bb[0] == "let" and bb[1] is let_stmt:
+                        out.append((n, cn.ancestors(n)))
+        return out
+
+    vec_lets = {}
+    for role in VECTORS:
+        ls = em.let_of(role)
+        if ls:
+            vec_lets[role] = ls[0]
     rep.floor("C18.T2", "per-property vectors", len(vec_lets), 7)
-    for v in vec_lets:
-        pushes = [(n, anc) for n, anc in nodes(loop_body, "mcall") if n["name"] == "push" and src(n["recv"]) == v]
-        uncond = [1 for n, anc in pushes if not [g for g in guards(anc, n) if g[0] in ("if", "else", "arm", "adaptor")]]
-        ok = len(pushes) == 1 and len(uncond) == 1
-        rep.ob("C18.T2", "pushed-once-per-property:%s" % v, ok, "%s.push(..) exactly once, unconditionally, per property" % v if ok else "%s is pushed %d times (%d unconditional) per property: the repetitions of the builder templates go out of step" % (v, len(pushes), len(uncond)), pushes[0][0].get("sp") if pushes else None)
-        outside = [n for n, anc in nodes(h["body"], "mcall") if n["name"] in ("push", "insert", "remove", "pop", "retain", "sort", "dedup", "truncate", "swap", "reverse") and src(n["recv"]) == v and not contains_node(loop_body, n)]
-        rep.ob("C18.T2", "not-touched-elsewhere:%s" % v, not outside, "no other mutation of %s" % v if not outside else "%s is mutated outside the loop" % v)
+    for role, let_stmt in vec_lets.items():
+        allp = pushes_into(let_stmt, h["body"])
+        inside = [(n, a) for (n, a) in allp if contains_node(loop_body, n)]
+        pushes = [(n, a) for (n, a) in inside if n["name"] == "push"]
+        uncond = [1 for (n, a) in pushes if not [g for g in guards(a, n) if g[0] in ("if", "else", "arm") or (g[0] == "adaptor" and not contains_node(loop_body, a[[id(x) for x in a].index(id(loop_body)) - 1] if False else None))] or True]
+        # unconditional = no if/else/arm between the loop body and the push
+        uncond = []
+        for (n, a) in pushes:
+            chain = list(a)
+            start = 0
+            for i, x in enumerate(chain):
+                if x is loop_body:
+                    start = i
+            inner = guards(tuple(chain[start:]), n)
+            if not [g for g in inner if g[0] in ("if", "else", "arm", "adaptor")]:
+                uncond.append(n)
+        ok = len(pushes) == 1 and len(uncond) == 1 and len(inside) == 1
+        rep.ob("C18.T2", "pushed-once-per-property:%s" % role, ok, "%s: exactly one unconditional push per property" % role if ok else "%s is pushed %d times (%d unconditional) per property: the repetitions of the builder templates go out of step" % (role, len(pushes), len(uncond)), pushes[0][0].get("sp") if pushes else None)
+        outside = [n for (n, a) in allp if not contains_node(loop_body, n)]
+        rep.ob("C18.T2", "not-touched-elsewhere:%s" % role, not outside, "no other mutation of %s" % role if not outside else "%s is mutated outside the loop" % role)
 
     # T1: one classification
-    gs = [n for n, _ in nodes(loop_body, "let") if n.get("init", {}).get("k") == "call" and n["init"].get("fn", "").endswith("generate_serde_attr")]
+    gs = [n for n, _ in nodes(loop_body, "let") if n.get("init", {}).get("k") == "call" and n["init"].get("fn", "").endswith("generate_serde_attr") and n["pat"].get("k") == "tuple" and len(n["pat"]["pats"]) == 2]
     if rep.floor("C18.T1", "call to the serde attribute selector in the loop", len(gs), 1):
-        b = [x["name"] for x, _ in walk(gs[0]["pat"]) if x.get("k") == "bind"]
-        s = src(loop_body)
-        ok = len(b) == 2 and ("prop_serde.push(%s)" % b[0]) in s and ("prop_default.push(match %s {" % b[1]) in s
-        rep.ob("C18.T1", "attr-and-builder-default-from-one-value", ok, "(serde, default_fn) of one call feed prop_serde and prop_default" if ok else "the serde attribute and the builder default do not come from the same classification", gs[0].get("sp"))
-        m = [n for n, _ in nodes(loop_body, "match") if n.get("src") == "normal" and src(n["scrut"]) == (b[1] if len(b) == 2 else "?")]
+        sel = gs[0]
+
+        def from_sel(e, idx):
+            e = strip_refs(e)
+            if e.get("k") == "path" and e.get("res") == "local":
+                bb = scope_binding(h, cn.ancestors(e), e["path"], e)
+                return bool(bb) and bb[0] == "let" and bb[1] is sel and bb[2] == idx
+            return False
+
+        ps = [n for (n, a) in pushes_into(vec_lets.get("prop_serde", {}), loop_body)] if "prop_serde" in vec_lets else []
+        pd = [n for (n, a) in pushes_into(vec_lets.get("prop_default", {}), loop_body)] if "prop_default" in vec_lets else []
+        ok = bool(ps) and bool(pd) and from_sel(ps[0]["args"][0], 0) and pd[0]["args"][0].get("k") == "match" and from_sel(pd[0]["args"][0]["scrut"], 1)
+        rep.ob("C18.T1", "attr-and-builder-default-from-one-value", ok, "the two results of one generate_serde_attr call feed the serde attribute and the builder default" if ok else "the serde attribute and the builder default do not come from the same classification", sel.get("sp"))
+        m = [pd[0]["args"][0]] if pd and pd[0]["args"][0].get("k") == "match" else []
         if rep.floor("C18.T1", "match on the DefaultFunction", len(m), 1):
             got = {}
             for a in m[0]["arms"]:
                 name = pat_top_variants(a["pat"])[0].split("::")[-1]
-                tmpl = [(facts.template_at(x["sp"]) or {}).get("text", "").replace(" ", "") for x, _ in walk(a["body"]) if x.get("k") == "macro" and x["name"] == "quote"]
+                tmpl = [(facts.template_at(x["sp"]) or {}).get("tt", []) for x, _ in walk(a["body"]) if x.get("k") == "macro" and x["name"] == "quote"]
                 fm = [x for x, _ in walk(a["body"]) if x.get("k") == "macro" and x["name"] == "format"]
                 ctor = [short(x["fn"]) for x, _ in walk(a["body"]) if x.get("k") == "call" and "PropDefault::" in x.get("fn", "")]
                 got[name] = (ctor, tmpl, fm, a)
-            ok = got.get("Default", ([], [], [], None))[0] == ["PropDefault::Default"] and got["Default"][1] == ["Default::default()"]
-            rep.ob("C18.T1", "classification:Default", ok, "Default => PropDefault::Default(quote!{Default::default()})", got.get("Default", (0, 0, 0, {}))[3].get("sp") if got.get("Default") else None)
-            ok = got.get("Custom", ([], [], [], None))[0] == ["PropDefault::Custom"] and got["Custom"][1] == ["#default_fn()"] and "parse_str(&fn_name)" in src(got["Custom"][3]["body"])
+            d = got.get("Default", ([], [], [], None))
+            ok = d[0] == ["PropDefault::Default"] and len(d[1]) == 1 and tp.flat(d[1][0]).replace(" ", "") == "Default::default()"
+            rep.ob("C18.T1", "classification:Default", ok, "Default => PropDefault::Default(quote!{Default::default()})", d[3].get("sp") if d[3] else None)
+            cu = got.get("Custom", ([], [], [], None))
+            ok = cu[0] == ["PropDefault::Custom"] and len(cu[1]) == 1 and re.fullmatch(r"#\w+\(\)", tp.flat(cu[1][0]).replace(" ", "")) is not None
+            if ok:
+                holes = [x for x, _ in walk(cu[3]["body"]) if x.get("k") == "macro" and x["name"] == "quote"][0]["args"]
+                pr = cn.r(holes[0]) if holes else ""
+                ok = bool(re.fullmatch(r"parse_str\(\S*~Custom\)\.unwrap\(\)", pr)) or pr.startswith("parse_str(")
             rep.ob("C18.T1", "classification:Custom", ok, "Custom(f) => PropDefault::Custom(quote!{#f()}) with f parsed from the selector's fn name")
-            okn = "None" in got and got["None"][0] == ["PropDefault::None"] and bool(got["None"][2])
+            no = got.get("None", ([], [], [], None))
+            okn = no[0] == ["PropDefault::None"] and bool(no[2])
             if okn:
-                tfm = facts.template_at(got["None"][2][0]["sp"])
-                okn = bool(tfm) and tfm["text"].startswith('"no value supplied for {}"') and src(got["None"][2][0]["args"]) == "prop.name"
+                tfm = facts.template_at(no[2][0]["sp"])
+                okn = bool(tfm) and tfm["text"].startswith('"no value supplied for {}"') and bool(re.fullmatch(r"elem<\S*properties\.iter\(\)>\.name", cn.r(no[2][0]["args"])))
             rep.ob("C18.T1", "classification:None", okn, 'None => PropDefault::None(format!("no value supplied for {}", prop.name))')
     # builder mapping
-    pdm = [n for n, _ in nodes(h["body"], "let") if n["pat"].get("k") == "bind" and n["pat"]["name"] == "prop_default" and "prop_default.iter().map(" in src(n.get("init"))]
+    pdm = [n for n in em.let_of("prop_default") if n.get("init") is not None and [x for x, _ in nodes(n["init"], "match")]]
     if rep.floor("C18.T1", "builder mapping of the classification", len(pdm), 1):
         mm = [n for n, _ in nodes(pdm[0]["init"], "match")][0]
         got = {}
         for a in mm["arms"]:
             name = pat_top_variants(a["pat"])[0].split("::")[-1]
-            tmpl = [(facts.template_at(x["sp"]) or {}).get("text", "").replace(" ", "") for x, _ in walk(a["body"]) if x.get("k") == "macro" and x["name"] == "quote"]
-            b = [x["name"] for x, _ in walk(a["pat"]) if x.get("k") == "bind"]
-            got[name] = (tmpl[0] if tmpl else "", b[0] if b else "")
-        want = {"None": "Err(#%s.to_string())", "Default": "Ok(#%s)", "Custom": "Ok(super::#%s)"}
+            tmpl = [re.sub(r"#\w+", "#x", (facts.template_at(x["sp"]) or {}).get("text", "").replace(" ", "")) for x, _ in walk(a["body"]) if x.get("k") == "macro" and x["name"] == "quote"]
+            got[name] = tmpl[0] if tmpl else ""
+        want = {"None": "Err(#x.to_string())", "Default": "Ok(#x)", "Custom": "Ok(super::#x)"}
         for k, w in want.items():
-            g = got.get(k, ("", ""))
-            ok = g[0] == w % g[1]
-            rep.ob("C18.T1", "builder-initial-value:%s" % k, ok, "%s => %s" % (k, g[0]) if ok else "builder initial value for %s is `%s` (expected `%s`)" % (k, g[0], w % (g[1] or "x")), mm.get("sp"))
+            ok = got.get(k) == w
+            rep.ob("C18.T1", "builder-initial-value:%s" % k, ok, "%s => %s" % (k, got.get(k)) if ok else "builder initial value for %s is `%s` (expected `%s`)" % (k, got.get(k), w), mm.get("sp"))
     # selector pairs state with function and attribute
     gsa = [x for x in c.user_fns() if x["fn"].endswith("generate_serde_attr")]
     if rep.floor("C18.T1", "serde attribute selector", len(gsa), 1):
@@ -106,7 +156,7 @@ def run(facts, rep, tier):
             rep.ob("C18.T1", "selector:%s/%s" % (state, cell), ok, why if ok else "selector arm %s pushes %s and returns %s" % (p[:60], pushed, res), a.get("sp"))
 
     # T3 shape of the builder templates
-    bts = [t for t in em.templates if any(it["kind"] == "struct" for it in t.items) and any(g[0] == "if" and "struct_builder" in g[1] for g in t.guards)]
+    bts = [t for t in em.templates if any(it["kind"] == "struct" for it in t.items) and any(g[0] == "if" and "struct_builder" in g[1] for g in t.conds())]
     if rep.floor("C18.T3", "builder template", len(bts), 1):
         t = bts[0]
         st = [it for it in t.items if it["kind"] == "struct"][0]
@@ -144,14 +194,17 @@ def run(facts, rep, tier):
         bad = sorted(reps - set(VECTORS))
         rep.ob("C18.T3", "repetitions-over-aligned-vectors", not bad, "repetition holes: %s" % sorted(reps) if not bad else "repetition over %s which is not one of the per-property vectors" % bad)
         rep.ob("C18.T3", "added-to-builder-mod", any(n["name"] == "add_item" and "OutputSpaceMod::Builder" in src(n["args"][0]) and contains_node(n, t.node) for n, _ in nodes(h["body"], "mcall")), "the template is added to `pub mod builder`")
-    # prop_error / prop_type_scoped
-    s = src(loop_body)
-    rep.ob("C18.T3", "scoped-type-uses-super", 'prop_type_scoped.push(prop_type_entry.type_ident(type_space, &Some("super".to_string())))' in s, "scoped types are rendered relative to `super`")
+    # prop_error / prop_type_scoped: read from the provenance of the vectors
+    hc = em.hole_canon()
+
+    def prov(role):
+        return hc.get(em.actual.get(role, role), "")
+    rep.ob("C18.T3", "scoped-type-uses-super", bool(re.fullmatch(r"vec\[\S*\.id_to_entry\.get\(elem<\S*properties\.iter\(\)>\.type_id\)\.unwrap\(\)\.type_ident\(\S* Some\(\"super\"\.to_string\(\)\)\)\]", prov("prop_type_scoped"))), "scoped types are rendered relative to `super`: %s" % prov("prop_type_scoped")[-60:])
     fm = [x for x, _ in walk(loop_body) if x.get("k") == "macro" and x["name"] == "format" and "error converting" in ((facts.template_at(x["sp"]) or {}).get("text", ""))]
-    ok = bool(fm) and (facts.template_at(fm[0]["sp"])["text"].startswith('"error converting supplied value for {}: {{}}"')) and src(fm[0]["args"]) == "prop.name"
+    ok = bool(fm) and (facts.template_at(fm[0]["sp"])["text"].startswith('"error converting supplied value for {}: {{}}"')) and bool(re.fullmatch(r"elem<\S*properties\.iter\(\)>\.name", cn.r(fm[0]["args"])))
     rep.ob("C18.T3", "setter-error-names-property", ok, 'prop_error = format!("error converting supplied value for {}: {{}}", prop.name)')
-    rep.ob("C18.T3", "field-ident-is-property-name", "prop_name.push(format_ident!(prop.name))" in s, "field identifiers come from prop.name")
+    rep.ob("C18.T3", "field-ident-is-property-name", bool(re.fullmatch(r"vec\[format_ident!\(elem<\S*properties\.iter\(\)>\.name\)\]", prov("prop_name"))), "field identifiers come from prop.name")
     bi = [t for t in em.templates if any(im["trait"] == "" and any(f["name"] == "builder" for f in im["fns"]) for im in t.impls)]
     ok = bool(bi) and tp.flat(bi[0].tt).replace(" ", "") == "impl#type_name{pubfnbuilder()->builder::#type_name{Default::default()}}"
     rep.ob("C18.T3", "builder-entry-point", ok, "impl T { pub fn builder() -> builder::T { Default::default() } }")
-    rep.sample({"rule": "C18", "vectors": vec_lets})
+    rep.sample({"rule": "C18", "vectors": sorted(vec_lets)})
